@@ -180,3 +180,313 @@ def inputs_only_relinked(units, R, roots=('create_patches', 'generate_merge_patc
                          'const parameter' if const_param else ('sorter/recursion/comparator' if ok else
                          '%s takes a mutable node of an input document' % cn), key='arg:%s:%s' % (cn, a0['n']))
     R.floor('INP', 'uses of input nodes examined', n, 10)
+
+
+# ---- MRG: RFC 7396 structure of merge-patch application ------------------------------------------------------------
+
+MERGE_ENTRIES = ('cJSONUtils_MergePatch', 'cJSONUtils_MergePatchCaseSensitive')
+OBJECT_MEMBER_OPS = {'cJSON_AddItemToObject', 'cJSON_AddItemToObjectCS', 'cJSON_DeleteItemFromObject',
+                     'cJSON_DeleteItemFromObjectCaseSensitive', 'cJSON_DetachItemFromObject',
+                     'cJSON_DetachItemFromObjectCaseSensitive', 'cJSON_ReplaceItemInObject',
+                     'cJSON_ReplaceItemInObjectCaseSensitive'}
+MEMBER_REMOVERS = {'cJSON_DeleteItemFromObject', 'cJSON_DeleteItemFromObjectCaseSensitive'}
+MEMBER_SETTERS = {'cJSON_AddItemToObject', 'cJSON_AddItemToObjectCS', 'cJSON_ReplaceItemInObject',
+                  'cJSON_ReplaceItemInObjectCaseSensitive', 'cJSON_ReplaceItemViaPointer'}
+
+
+def _merge_roles(u):
+    """{function name: {param index: 'T' | 'P'}} for the functions that apply a merge patch: the entry points take
+    (target, patch); the roles follow the arguments into static helpers (a patch-derived argument is the patch
+    variable itself, one of its children or a cursor over them)."""
+    roles = {}
+    for e in MERGE_ENTRIES:
+        if e in u.functions:
+            roles[e] = {0: 'T', 1: 'P'}
+    if not roles:
+        raise AnalysisBroken('MRG: merge-patch entry points not found')
+    changed = True
+    while changed:
+        changed = False
+        for name in list(roles):
+            fn = u.functions[name]
+            var = _role_vars(u, fn, roles[name])
+            for c in fn.calls():
+                cn = callee_name(c)
+                h = u.functions.get(cn)
+                if h is None or not h.static:
+                    continue
+                for i, a in enumerate(c['args']):
+                    a0 = strip_casts(a)
+                    root = _root_var(a0)
+                    if root is not None and root in var and i < len(h.params) and 'cJSON' in u.ty(h.params[i]['ty'])['s']:
+                        r = var[root]
+                        if roles.setdefault(cn, {}).get(i) != r:
+                            if i in roles[cn] and roles[cn][i] != r:
+                                raise AnalysisBroken('MRG: %s receives both a target and a patch as parameter %d' % (cn, i))
+                            roles[cn][i] = r
+                            changed = True
+    return roles
+
+
+def _root_var(e):
+    """decl id of the variable an expression like v, v->child, v->next->... starts from"""
+    e = strip_casts(e)
+    while e.get('k') == 'mem' and e['f'] in ('child', 'next', 'prev'):
+        e = strip_casts(e['b'])
+    if e.get('k') == 'ref' and e.get('dk') in ('local', 'param'):
+        return e['d']
+    return None
+
+
+def _role_vars(u, fn, proles):
+    """decl id -> 'T' | 'P' for parameters with a role and the locals that only ever hold nodes reached from them"""
+    var = {}
+    for i, r in proles.items():
+        if i < len(fn.params):
+            var[fn.params[i]['d']] = r
+    changed = True
+    while changed:
+        changed = False
+        srcs = {}
+        for d in fn.locals():
+            if 'init' in d and not is_null_const(d['init']):
+                srcs.setdefault(d['d'], []).append(d['init'])
+        for a in assignments(fn):
+            if is_ref(a['l']) and a['op'] == '=' and not is_null_const(a['r']):
+                srcs.setdefault(strip_casts(a['l'])['d'], []).append(a['r'])
+        for d, rs in srcs.items():
+            if d in var:
+                continue
+            rr = set()
+            for r in rs:
+                root = _root_var(r)
+                r0 = strip_casts(r)
+                if root == d:
+                    continue           # a cursor stepping along its own chain
+                if root is not None and root in var and var[root] == 'P':
+                    rr.add('P')
+                elif r0.get('k') == 'cond':
+                    # cJSON_ArrayForEach: (x != NULL) ? x->child : NULL
+                    roots = {_root_var(arm) for arm in (r0['t'], r0['e']) if not is_null_const(arm)}
+                    if len(roots) == 1 and next(iter(roots)) in var and var[next(iter(roots))] == 'P':
+                        rr.add('P')
+                    else:
+                        rr.add('?')
+                else:
+                    rr.add('?')
+            if rr == {'P'}:
+                var[d] = 'P'
+                changed = True
+    return var
+
+
+def _is_kind_test(e, fname):
+    """(decl id of v) when e is cJSON_Is<kind>(v)"""
+    e = strip_casts(e)
+    if e.get('k') == 'call' and callee_name(e) == fname and e['args']:
+        a = strip_casts(e['args'][0])
+        if a.get('k') == 'ref':
+            return a['d']
+    return None
+
+
+def mrg(units, R):
+    """RFC 7396 as necessary conditions on the code that applies a merge patch:
+    MRG1  a value taken from the patch is copied verbatim (cJSON_Duplicate) only where it is known not to be an object -
+          objects have to be merged member by member, or their null members would be copied instead of deleting;
+    MRG2  a member of the target is removed only under cJSON_IsNull of the patch member, and set only when it is not null;
+    MRG3  members are looked up, added, removed or replaced only on a target that is known to be an object (tested, or
+          freshly created after a non-object target was released); helpers that rely on their caller for this are
+          checked at their call sites."""
+    from .common import guarded_by
+    from ..dataflow import solve
+    u = units['cJSON_Utils.c']
+    roles = _merge_roles(u)
+    needs_object = {}      # helper name -> set of param indices used as object without establishing it
+    for _pass in range(6):
+        before = {k: set(v) for k, v in needs_object.items()}
+        tmp = type(R)(config=R.config)
+        _mrg_pass(u, roles, needs_object, tmp)
+        if needs_object == before:
+            break
+    _mrg_pass(u, roles, needs_object, R)
+
+
+def _mrg_pass(u, roles, needs_object, R):
+    from .common import guarded_by
+    from ..dataflow import solve
+    n1 = n2 = n3 = 0
+    results3 = []
+    unsatisfied = set()
+    order = sorted(roles, key=lambda n: 0 if u.functions[n].static else 1)
+    for name in order:
+        fn = u.functions[name]
+        cfg = fn.cfg()
+        var = _role_vars(u, fn, roles[name])
+        names = {d['d']: d['n'] for d in list(fn.params) + list(fn.locals())}
+        # MRG2
+        for c in fn.calls():
+            cn = callee_name(c)
+            if cn not in MEMBER_REMOVERS and cn not in MEMBER_SETTERS:
+                continue
+            if not c['args'] or _root_var(c['args'][0]) is None or var.get(_root_var(c['args'][0])) == 'P':
+                continue
+            # the key argument names a patch member: pc->string
+            pc = None
+            for a in c['args'][1:]:
+                a0 = strip_casts(a)
+                if a0.get('k') == 'mem' and a0['f'] == 'string' and is_ref(a0['b']) and var.get(strip_casts(a0['b'])['d']) == 'P':
+                    pc = strip_casts(a0['b'])
+            if pc is None:
+                continue
+            n2 += 1
+            node = node_containing(cfg, c)
+            want = 'T' if cn in MEMBER_REMOVERS else 'F'
+            ok = guarded_by(cfg, node.id, lambda nn, l: nn.kind == 'branch' and l is not None and l[0] == want and
+                            _is_kind_test(nn.expr, 'cJSON_IsNull') == pc['d'])
+            R.ob('MRG2', fn, c, ('member %s->string is removed only when the patch value is null' if want == 'T' else
+                                 'member %s->string is set only when the patch value is not null') % pc['n'], ok,
+                 'behind the %s edge of cJSON_IsNull(%s)' % ('true' if want == 'T' else 'false', pc['n']) if ok else
+                 '%s is reachable without cJSON_IsNull(%s) being %s' % (cn, pc['n'], 'true' if want == 'T' else 'false'),
+                 key='null:%s:%s' % (cn, pc['n']))
+        # MRG3: must-dataflow "v is an object"
+        tvars = {d for d, r in var.items() if r == 'T'}
+        assumed = frozenset(fn.params[i]['d'] for i in needs_object.get(name, set()))
+
+        def transfer(node, st):
+            st = set(st)
+            for ev in node_effects(node):
+                if ev.kind in ('store', 'declinit'):
+                    if ev.kind == 'declinit':
+                        d, rhs = ev.lhs['d'], ev.rhs
+                    else:
+                        l = strip_casts(ev.lhs)
+                        if l.get('k') != 'ref':
+                            continue
+                        d, rhs = l['d'], (ev.node['r'] if ev.node['op'] == '=' else None)
+                    st.discard(d)
+                    if rhs is not None:
+                        r0 = strip_casts(rhs)
+                        if r0.get('k') == 'call' and callee_name(r0) == 'cJSON_CreateObject':
+                            st.add(d)
+                        elif r0.get('k') == 'ref' and r0['d'] in st:
+                            st.add(d)
+            return frozenset(st)
+
+        def refine(node, label, st):
+            if label[0] in ('T', 'F') and node.kind == 'branch':
+                v = _is_kind_test(label[1], 'cJSON_IsObject')
+                if v is not None and label[0] == 'T':
+                    return st | {v}
+            return st
+        states = solve(cfg, assumed, transfer, refine, lambda a, b: a & b)
+        # MRG1
+        for c in fn.calls():
+            if callee_name(c) != 'cJSON_Duplicate' or not c['args']:
+                continue
+            a = strip_casts(c['args'][0])
+            if not (a.get('k') == 'ref' and var.get(a['d']) == 'P'):
+                continue
+            n1 += 1
+            node = node_containing(cfg, c)
+            v = a['d']
+            # edges on which a variable known to be an object tests as a non-object cannot be taken (allocation failure is
+            # not modelled for cJSON_Utils.c)
+            ok = guarded_by(cfg, node.id, lambda nn, l: nn.kind == 'branch' and l is not None and l[0] == 'F' and
+                            (_is_kind_test(nn.expr, 'cJSON_IsObject') == v or
+                             (_is_kind_test(nn.expr, 'cJSON_IsObject') is not None and
+                              _is_kind_test(nn.expr, 'cJSON_IsObject') in (states.get(nn.id) or ()))))
+            R.ob('MRG1', fn, c, 'patch value %s is copied verbatim only when it is not an object' % a['n'], ok,
+                 'reachable only through the false edge of cJSON_IsObject(%s)' % a['n'] if ok else
+                 'cJSON_Duplicate(%s) can be reached while %s is an object: its null members would be copied into the result '
+                 'instead of deleting (RFC 7396: an object patch is merged member by member)' % (a['n'], a['n']),
+                 key='dup:%s' % a['n'])
+        for c in fn.calls():
+            cn = callee_name(c)
+            if not c['args']:
+                continue
+            a = strip_casts(c['args'][0])
+            node = node_containing(cfg, c)
+            st = states.get(node.id)
+            if st is None:
+                continue
+            if (cn in OBJECT_MEMBER_OPS or cn in ('get_object_item', 'cJSON_GetObjectItem', 'cJSON_GetObjectItemCaseSensitive')) \
+                    and a.get('k') == 'ref' and (a['d'] in tvars or _derived_from_target(fn, a['d'], tvars)):
+                n3 += 1
+                ok = a['d'] in st
+                if ok and a['d'] in assumed and not _established_locally(cfg, states, node, a['d'], assumed):
+                    results3.append((fn, c, cn, a, None))
+                    continue
+                if not ok and fn.static and a.get('dk') == 'param' and not any(
+                        x.get('k') == 'bin' and x['op'] in ASSIGN_OPS and is_ref(x['l']) and strip_casts(x['l'])['d'] == a['d'] for x in fn.nodes()):
+                    # a helper working on its parameter: the obligation moves to the call sites
+                    idx = [i for i, p in enumerate(fn.params) if p['d'] == a['d']][0]
+                    if idx not in needs_object.get(name, set()):
+                        needs_object.setdefault(name, set()).add(idx)
+                    results3.append((fn, c, cn, a, None))
+                    continue
+                results3.append((fn, c, cn, a, ok))
+            h = u.functions.get(cn)
+            if h is not None and cn in needs_object:
+                for idx in needs_object[cn]:
+                    if idx < len(c['args']):
+                        x = strip_casts(c['args'][idx])
+                        n3 += 1
+                        ok = x.get('k') == 'ref' and x['d'] in st
+                        if not ok and not fn.static:
+                            # a public entry point hands its own parameter on: it is the helper that has to make it an object
+                            unsatisfied.add((cn, idx))
+                            continue
+                        R.ob('MRG3', fn, c, 'helper %s works on an object: argument %s is known to be one' % (cn, expr_str(x)[:30]), ok,
+                             'tested with cJSON_IsObject or freshly created on every path' if ok else
+                             '%s can be something other than an object here (RFC 7396: a non-object target is replaced by an empty object first)'
+                             % expr_str(x)[:30], key='objarg:%s:%s' % (cn, expr_str(x)[:30]))
+    for (fn, c, cn, a, ok) in results3:
+        if ok is None:
+            idx = [i for i, p in enumerate(fn.params) if p['d'] == a['d']][0]
+            bad = (fn.name, idx) in unsatisfied
+            R.ob('MRG3', fn, c, 'member operation %s on parameter %s' % (cn, a['n']), not bad,
+                 'the helper relies on its callers: checked at the call sites' if not bad else
+                 '%s comes straight from the API and can be a non-object here (RFC 7396: a non-object target is replaced by an '
+                 'empty object first)' % a['n'], key='objop:%s:%s' % (cn, a['n']))
+        else:
+            R.ob('MRG3', fn, c, 'member operation %s only on a target known to be an object' % cn, ok,
+                 '%s was tested with cJSON_IsObject or freshly created on every path' % a['n'] if ok else
+                 '%s can be a non-object here (RFC 7396: a non-object target is replaced by an empty object first)' % a['n'],
+                 key='objop:%s:%s' % (cn, a['n']))
+    R.floor('MRG1', 'verbatim copies of patch values', n1, 1)
+    R.floor('MRG2', 'member removals / settings keyed by a patch member', n2, 2)
+    R.floor('MRG3', 'member operations on the target', n3, 2)
+
+
+def _established_locally(cfg, states, node, d, assumed):
+    """the fact "d is an object" at node does not rest on the assumption made for the parameter: it also holds when the
+    analysis starts without it (approximated: some branch node testing cJSON_IsObject(d) dominates the node)"""
+    for b in cfg.nodes:
+        if b.kind == 'branch' and _is_kind_test(b.expr, 'cJSON_IsObject') == d and cfg.dominates(b.id, node.id):
+            return True
+    return False
+
+
+def _derived_from_target(fn, d, tvars):
+    """local d is (only) assigned from a lookup in a target-role variable or a fresh object"""
+    srcs = []
+    for x in fn.locals():
+        if x['d'] == d and 'init' in x and not is_null_const(x['init']):
+            srcs.append(x['init'])
+    for a in assignments(fn):
+        if is_ref(a['l']) and strip_casts(a['l'])['d'] == d and not is_null_const(a['r']):
+            srcs.append(a['r'])
+    if not srcs:
+        return False
+    for r in srcs:
+        r0 = strip_casts(r)
+        if r0.get('k') == 'call':
+            cn = callee_name(r0)
+            if cn == 'cJSON_CreateObject':
+                continue
+            if cn in ('get_object_item', 'cJSON_GetObjectItem', 'cJSON_GetObjectItemCaseSensitive', 'cJSON_DetachItemFromObject',
+                      'cJSON_DetachItemFromObjectCaseSensitive') and r0['args'] and _root_var(r0['args'][0]) in tvars:
+                continue
+        return False
+    return True
